@@ -630,4 +630,5 @@ def run(res, tier):
         res.rule("SER-4", "compressed layouts: write_to and read_from perform the same ordered sequence of items")
         n6 = c18.ser6(p, res, rd, wr, only=lambda k: "ompressed" in k)
         res.floor("SER-6", "compressed writer/reader pairs", n6, 11)
+        c18.ser4(p, res, rd, wr, only=lambda k: "ompressed" in k, floor=10)
         res.fn_count += len(kernel_sites(p)) + 6
